@@ -242,7 +242,12 @@ def execute(sc):
         argv_before = ([script] + list(tokens)) if argv is not None else None
         tok_obj, opt_obj = raw.tokens, raw.option_tokens
         tok_before, opt_before = list(tok_obj), list(opt_obj)
-        listing_before = _fmt_listing(fmt)
+        try:
+            listing_before = _fmt_listing(fmt)
+        except Exception as e:
+            # the format listed itself when it was built; it no longer can: something altered it
+            res.violate("input_mutated", "format", "format #%d can no longer be listed before request %d (%s: %s)" % (rq["fmt"], i, type(e).__name__, e))
+            break
 
         got = _outcome(P, raw, fmt, rq["lenient"])
 
@@ -253,8 +258,14 @@ def execute(sc):
             res.violate("input_mutated", "raw.tokens", "tokens changed from %r to %r" % (tok_before, list(raw.tokens)))
         if raw.option_tokens is not opt_obj or list(raw.option_tokens) != opt_before:
             res.violate("input_mutated", "raw.option_tokens", "option tokens changed from %r to %r" % (opt_before, list(raw.option_tokens)))
-        if _fmt_listing(fmt) != listing_before:
-            res.violate("input_mutated", "format", "format listing changed by parse of %r" % (tokens,))
+        try:
+            listing_after = _fmt_listing(fmt)
+        except Exception as e:
+            listing_after = ("unlistable", type(e).__name__, str(e))
+        if listing_after != listing_before:
+            res.violate("input_mutated", "format", "format listing changed by parse of %r%s" % (
+                tokens, " (now %r)" % (listing_after,) if listing_after[0] == "unlistable" else ""))
+            break
 
         # reference: a parser constructed for this one request, on fresh raw args
         raw2, _ = _raw(rq["raw"], tokens, script)
